@@ -91,6 +91,7 @@ func (c *Ctx) handler(name string) *handlerRoles {
 
 func runC16(c *Ctx) {
 	c.registration()
+	c.enqueueAlwaysAdds()
 	nExit := 0
 	for _, name := range []string{"addPod", "updatePod", "deletePod"} {
 		h := c.handler(name)
@@ -850,4 +851,68 @@ func (c *Ctx) mustReachOrSkip(h *handlerRoles, site *ast.CallExpr, enable, skip 
 		reach := a.StateAtExpr(site).Reachable()
 		c.Check(reach, rule, name, site.Pos(), "under its enabling condition every path reaches the enqueue or carries "+skip.String(), "the enqueue is unreachable under its enabling condition")
 	}
+}
+
+// enqueueAlwaysAdds: every handler ends in enqueueStatefulSet; whatever reaches it is put on the queue. The only exit
+// without the Add is the one for an object no key can be made of (the key function's error). In particular the Add does
+// not depend on what the queue remembers about the key: an event that arrives while a retry is pending or running is
+// the only notice of a change the retry may not have seen.
+func (c *Ctx) enqueueAlwaysAdds() {
+	const rule = "C16.1-enqueue-always-adds"
+	fi := c.Func(load.CtrlPkg, "StatefulSetController.enqueueStatefulSet")
+	if fi == nil {
+		return
+	}
+	fn, an := c.Analysis(fi)
+	info := fi.Pkg.TypesInfo
+	var adds []ast.Node
+	var keyErr *gf.Formula
+	for _, bd := range fn.Bodies() {
+		for _, call := range callsIn(bd, true) {
+			for _, s := range c.G.Sites {
+				if s.Call == call && s.Class == "queue" && (s.Verb == "Add" || s.Verb == "AddRateLimited" || s.Verb == "AddAfter") {
+					if st := stmtOf(bd, call); st != nil {
+						adds = append(adds, st)
+					}
+				}
+			}
+		}
+	}
+	// the key function's error: the last result of the first assignment from a call in the body
+	ownNodes(fi.Decl.Body, func(x ast.Node) {
+		if as, ok := x.(*ast.AssignStmt); ok && keyErr == nil && len(as.Rhs) == 1 && len(as.Lhs) == 2 {
+			if _, isCall := as.Rhs[0].(*ast.CallExpr); isCall && isErrorType(info.TypeOf(as.Lhs[1])) {
+				keyErr = gf.FNotNil(fn.Term(as.Lhs[1]))
+			}
+		}
+	})
+	if len(adds) == 0 {
+		c.Bad(rule, "enqueueStatefulSet", fi.Decl.Pos(), "no queue Add found")
+		return
+	}
+	aU := fn.FromUntil(fi.Decl.Body.List[0], gf.TrueState(), adds...)
+	n := 0
+	judge := func(ret ast.Node) {
+		st := aU.StateBefore(ret)
+		if !st.Reachable() {
+			return
+		}
+		n++
+		good := false
+		if keyErr != nil {
+			good, _ = st.Implies(keyErr)
+		}
+		c.Check(good, rule, fmt.Sprintf("enqueueStatefulSet: exit #%d without the Add", n), ret.Pos(), "only when no key could be made of the object",
+			"the set is not put on the queue although a key was made: the event is dropped (if a retry of this key is pending or running and then succeeds, nothing reconciles the change the event stood for)")
+	}
+	ownNodes(fi.Decl.Body, func(x ast.Node) {
+		if r, ok := x.(*ast.ReturnStmt); ok {
+			judge(r)
+		}
+	})
+	if ir := fn.ImplicitReturn(); ir != nil {
+		judge(ir)
+	}
+	_ = an
+	c.Floor(rule+"-exits", n, 1)
 }
